@@ -714,6 +714,15 @@ func (broker *Broker) hashFiles(opener sts.Open, in <-chan []sts.Hashed, wg *syn
 				broker.error(err)
 			}
 			fh.Close()
+			if now, serr := broker.Conf.Store.Sync(file); serr != nil || (now != nil &&
+				(now.GetSize() != file.GetSize() || now.GetTime() != file.GetTime())) {
+				// The file was written to (or went away) while it was being
+				// read: the hash belongs to other content than the size and
+				// time this entry carries.  Leave it without a hash; the next
+				// scan sees the change and picks it up again.
+				log.Debug("Changed while hashing:", file.GetName())
+				file.(*hashFile).hash = ""
+			}
 			log.Debug(fmt.Sprintf("HASHed %s : %s", file.GetName(), file.(*hashFile).hash))
 		}
 	}
